@@ -172,6 +172,23 @@ def c02c(tree, ob):
             elif 'i2m' in meths:
                 ob.site(rel, node, node.name + ' defines i2m and m2i')
             if ('addfield' in meths) != ('getfield' in meths):
+                # a guard in front of the inherited codec (refuse, else hand the same arguments to the base method) changes
+                # no conversion: the pair is still the inherited one
+                only = [n for n in node.body if isinstance(n, ast.FunctionDef) and n.name in ('addfield', 'getfield')][0]
+                rets = [r for r in walk_local(only) if isinstance(r, ast.Return)]
+                params = [a.arg for a in only.args.args]
+                stores = [n for n in walk_local(only) if isinstance(n, ast.Name) and isinstance(n.ctx, ast.Store)]
+
+                def delegates(r):
+                    c = r.value
+                    if not (isinstance(c, ast.Call) and isinstance(c.func, ast.Attribute) and c.func.attr == only.name):
+                        return False
+                    base = src(c.func.value)
+                    args = [src(a) for a in c.args]
+                    return (base == 'super()' and args == params[1:]) or (base in [src(b) for b in node.bases] and args == params)
+                if rets and all(delegates(r) for r in rets) and not stores:
+                    ob.site(rel, only, '{}.{}: a guard in front of the inherited {}'.format(node.name, only.name, only.name))
+                    continue
                 ob.violate(rel, node.name, 'addfield / getfield', '{} overrides only one of addfield/getfield'.format(node.name), node)
             elif 'addfield' in meths:
                 ob.site(rel, node, node.name + ' defines addfield and getfield')
@@ -357,6 +374,33 @@ def c02e(tree, ob):
 
 
 def c02d(tree, ob):
+    # block-type-specific data that does not dissect as its block type stays opaque (it may be ciphertext): the handler
+    # must not let the error out under any configuration
+    fp = FuncView(tree, BLOCKS, 'CanonicalBlock.post_dissect')
+    hs = [h for h in walk_local(fp.func) if isinstance(h, ast.ExceptHandler)]
+    inner = [h for h in hs if any(isinstance(c.func, ast.Name) and c.func.id == 'cls' for st in enclosing(h, (ast.Try,)).body for c in calls_in(st))]
+    for h in inner:
+        rr = [r for r in walk_local(h) if isinstance(r, ast.Raise)]
+        if rr:
+            ob.violate(BLOCKS, fp.qual, 'except: ... raise', 'a failed dissection of block-type-specific data can be re-raised: a bundle whose extension block of a known type carries ciphertext (a BCB '
+                       'target) then fails to decode at all', rr[0])
+        else:
+            ob.site(BLOCKS, h, 'undissectable block data stays opaque')
+    # a type/value record keeps every content item, also one that is falsy in Python (0, false, h'', [], {})
+    if tree.has_func('scapy_cbor/packets.py', 'TypeValueHead.do_dissect_payload'):
+        ft = FuncView(tree, 'scapy_cbor/packets.py', 'TypeValueHead.do_dissect_payload')
+        adds = [c for c in calls_in(ft.func) if pm('self.add_payload(CborItem(item=$s))', c) is not None]
+        okf = False
+        for a in adds:
+            facts = ft.facts(a) or frozenset()
+            # scapy's own do_dissect_payload does nothing for a falsy value: the explicit add must cover every falsy value
+            if any(p is False and t in ('s',) for (t, p) in facts):
+                okf = True
+        if okf:
+            ob.site('scapy_cbor/packets.py', adds[0], 'falsy content items get an explicit payload')
+        else:
+            ob.violate('scapy_cbor/packets.py', ft.qual, 'if not s: self.add_payload(CborItem(item=s))', 'a record whose content item is falsy (0, false, empty string / list / map) gets no payload object and is '
+                       're-encoded as [type, null]', ft.func)
     # the payload is decoded as an administrative record only when it is a whole one, and a record this node cannot
     # interpret stays opaque (as undecodable block-type-specific data does) instead of making the bundle undecodable
     fb = FuncView(tree, BUNDLE, 'Bundle.post_dissect')
